@@ -3,6 +3,7 @@ import TxdbusModel.Auth.Client
 import TxdbusModel.Auth.ClientSha1
 import TxdbusModel.Auth.SpecServerRef
 import TxdbusModel.Auth.ClientHandshake
+import TxdbusModel.Auth.Handshake2
 /-!
 Driver for property C07: runs the client authenticator model on one scenario per input line.
 
@@ -17,6 +18,14 @@ Driver for property C07: runs the client authenticator model on one scenario per
   hs <unix 0|1> <accept ext 0|1> <accept cookie 0|1> <accept anon 0|1> <fdAgree 0|1> <guid hex-as-hex>
      <user hex> <dir> <rnd hex> <nfiles> (<ctx> <content>)* <cookieCtx hex> <cookieId hex> <cookie hex> <challenge hex>
      -> <transcript: C:<hex> / S:<hex> …> | client=<0|1> server=<state> disc=<0|1>
+
+  hs2 <unix 0|1> <guid hex> <hello hex> <user hex> <clientHome hex> <initStat mode:owned> <root 0|1> <euid>
+      <creds;passwd;dirs;files;now;ctx>   (the world, written as for drv_c06 `R`, without the sha table: SHA-1 is computed)
+      <errtexts: `-` or kind:hex joined by `,`>  (text of the client's ERROR line per failure kind; default: the kind's name)
+      <schedule: `-` or moves joined by `,`: S<n> = one read of the bus, C<n> = one read of the client, n+1 bytes at most>
+     -> the composition of the client model and the bus model (Auth/Handshake2.lean) after the schedule:
+        <client events> | auth=.. disc=.. buffer=.. binary=.. guid=.. || sent=.. closed=.. auth=.. crashed=.. guid=.. bin=..
+        handed=.. state=.. rejects=.. cur=.. files=.. dirs=.. rnd=.. || c2s=<hex> s2c=<hex>
 -/
 open Txdbus.AuthClient
 
@@ -144,11 +153,110 @@ def cmdHs (toks : List String) : String :=
     | _, _ => "error bad-hs-env"
   | _ => "error bad-hs"
 
+/-! ### the composition with the bus model (`hs2`) -/
+section hs2
+open Txdbus.AuthServer (RealWorld Inst PwEnt DirState CookieEnt EnvCfg)
+
+def splitNE (s : String) (sep : String) : List String :=
+  if s == "-" || s == "" then [] else s.splitOn sep
+
+def unhx (s : String) : Bytes := (Driver.hexToBytes? s).getD []
+
+/-- `os.urandom`: the k-th call with length n (the same function as drv_c06 and the harness use). -/
+def rndFn (k n : Nat) : Bytes := (List.range n).map fun j => UInt8.ofNat ((k * 131 + j * 17 + 7) % 256)
+
+def parsePasswd (s : String) : List PwEnt :=
+  (splitNE s ",").filterMap fun e =>
+    match e.splitOn ":" with
+    | [n, u, g, h] => some ⟨unhx n, u.toNat!, g.toNat!, unhx h⟩
+    | _ => none
+
+def parseDirs (s : String) : List (Bytes × DirState) :=
+  (splitNE s ",").filterMap fun e =>
+    match e.splitOn ":" with
+    | [h, d] => some (unhx h, if d == "g" then .good else if d == "b" then .bad else .absent)
+    | _ => none
+
+def parseKeyFiles (s : String) : List (Bytes × List CookieEnt) :=
+  (splitNE s ",").filterMap fun e =>
+    match e.splitOn ":" with
+    | [h, es] =>
+      some (unhx h, (splitNE es "/").filterMap fun c =>
+        match c.splitOn "." with
+        | [i, t, k] => some ⟨i.toNat!, t.toNat!, unhx k⟩
+        | _ => none)
+    | _ => none
+
+def parseWorld (env : String) : Option RealWorld :=
+  match env.splitOn ";" with
+  | [creds, passwd, dirs, files, now, ctx] =>
+    let frac := now.endsWith "+"
+    let nowS := if frac then (now.dropEnd 1).toString else now
+    let cfg : EnvCfg := ⟨if creds == "-" then none else some creds.toInt!, parsePasswd passwd, nowS.toNat!, frac, rndFn,
+                         Sha1.sha1, unhx ctx⟩
+    some ⟨cfg, parseDirs dirs, parseKeyFiles files, 0⟩
+  | _ => none
+
+def parseErrTexts (s : String) : CookieErr → Bytes :=
+  let tbl : List (String × Bytes) := (splitNE s ",").filterMap fun e =>
+    match e.splitOn ":" with
+    | [k, t] => some (k, unhx t)
+    | _ => none
+  fun e =>
+    let name := String.ofList ((errName e).map fun b => Char.ofNat b.toNat)
+    match tbl.find? (fun p => p.1 == name) with
+    | some p => p.2
+    | none => errName e
+
+def parseMoves (s : String) : Option (List Txdbus.Handshake2.Move) :=
+  (splitNE s ",").mapM fun m =>
+    match (m.drop 1).toString.toNat? with
+    | none => none
+    | some n => if m.startsWith "S" then some (.toServer n) else if m.startsWith "C" then some (.toClient n) else none
+
+def hxs (l : List Bytes) : String := if l.isEmpty then "-" else ",".intercalate (l.map hx)
+
+def srvStName : Txdbus.AuthServer.St → String
+  | .waitingForAuth => "WaitingForAuth" | .waitingForData => "WaitingForData" | .waitingForBegin => "WaitingForBegin"
+
+def filesOut (w : RealWorld) : String :=
+  let fs := w.files.map fun (h, es) => hx h ++ ":" ++ "/".intercalate (es.map fun e => s!"{e.id}.{hx e.cookie}")
+  let fs := fs.toArray.qsort (· < ·) |>.toList
+  if fs.isEmpty then "-" else ",".intercalate fs
+
+def dirsOut (w : RealWorld) : String :=
+  let ds := w.dirs.filter (fun p => p.2 ≠ .absent) |>.map fun (h, d) => hx h ++ ":" ++ (if d = .good then "g" else "b")
+  let ds := ds.toArray.qsort (· < ·) |>.toList
+  if ds.isEmpty then "-" else ",".intercalate ds
+
+def showBus (p : Txdbus.Handshake2.SProto) : String :=
+  s!"sent={hxs p.sent} closed={b01 p.closed} auth={b01 p.authenticated} crashed={b01 p.crashed} " ++
+  s!"guid={match p.guid with | some g => hx g | none => "none"} bin={hx p.binary} " ++
+  s!"handed={hxs (p.log.map (·.line))} state={srvStName p.srv.state} rejects={p.srv.rejects} " ++
+  s!"cur={match p.srv.cur with | some (n, _) => hx n | none => "none"} " ++
+  s!"files={filesOut p.srv.world} dirs={dirsOut p.srv.world} rnd={p.srv.world.rndCalls}"
+
+def cmdHs2 (toks : List String) : String :=
+  match toks with
+  | [unix, guid, hello, user, home, istat, root, euid, env, errs, sched] =>
+    match parseDir istat, parseWorld env, parseMoves sched, euid.toNat? with
+    | some (some ist), some w, some moves, some eu =>
+      let cfg : Txdbus.Handshake2.Cfg :=
+        { unix := unix == "1", guid := unhx guid, hello := unhx hello, user := unhx user, clientHome := unhx home,
+          initStat := ist, root := root == "1", euid := eu, errText := parseErrTexts errs, w0 := w }
+      let st := Txdbus.Handshake2.run cfg (Txdbus.Handshake2.init cfg) moves
+      showProto st.c ++ " || " ++ showBus st.s ++ " || c2s=" ++ hx st.c2s ++ " s2c=" ++ hx st.s2c
+    | _, _, _, _ => "error bad-hs2-args"
+  | _ => "error bad-hs2"
+
+end hs2
+
 def step (_ : Unit) (line : String) : Unit × String :=
   match Driver.words line with
   | "run" :: toks => ((), cmdRun toks)
   | "runp" :: toks => ((), cmdRunP toks)
   | "hs" :: toks => ((), cmdHs toks)
+  | "hs2" :: toks => ((), cmdHs2 toks)
   | _ => ((), "error unknown-command")
 
 end DrvC07
